@@ -26,6 +26,14 @@ class StmtMixin:
             r = m(s, st, fr)
         except PyRaise as e:
             return (RAISE, (e.exc, e.msg, getattr(s, "lineno", None)))
+        if r is None and isinstance(s, (ast.Assign, ast.AugAssign, ast.Expr)):
+            c = self.contract_for(fr)
+            if c is not None and c.ghost_after:
+                txt = ast.unparse(s)
+                for key, stmts in c.ghost_after.items():
+                    if txt.startswith(key):
+                        for gs in stmts:
+                            c.exec_ghost(self, gs, st, fr)
         return r if r is not None else (NORMAL, None)
 
     # ---- simple statements
@@ -114,6 +122,11 @@ class StmtMixin:
         if hasattr(base, "setitem"):
             base.setitem(self, st, idx, v)
             return
+        if isinstance(base, Obj) and base.cls.startswith("agilerl"):
+            r = front.find_method(base.cls, "__setitem__")
+            if r is not None:
+                self.call_function(r[0], r[1], r[2], [base, idx, v], {}, st, self.top_frame, getattr(node, "lineno", "?"))
+                return
         if isinstance(base, Seq):
             if isinstance(idx, slice):
                 raise Undecided("slice store on Seq")
@@ -384,11 +397,11 @@ class StmtMixin:
             r = self.exec_block(s.body, st, fr)
             fr.loop_ordinal = fr_saved
             if r[0] in (NORMAL, CONTINUE):
+                for gs in spec.get("ghost_post", []):
+                    c.exec_ghost(self, gs, st, fr)
                 step()
                 if bind_next:
                     bind_next()
-                for gs in spec.get("ghost_post", []):
-                    c.exec_ghost(self, gs, st, fr)
                 for j, inv in enumerate(spec["invariant"]):
                     gl = c.eval_spec(self, inv, st, fr)
                     self.oblige(st, f"{tag}.pres.{j}", gl, "inv-pres", line, inv)
@@ -432,6 +445,22 @@ class StmtMixin:
         for n in sorted(names):
             if n in st.locals and n != counter:
                 st.locals[n] = self.havoc_value(st.locals[n], n, st)
+        # ghost variables assigned by the loop's ghost code are part of the loop state: havoc them too
+        gnames = set(spec.get("havoc_names", []))
+        for key in ("ghost_pre", "ghost_post", "ghost_break"):
+            for gs in spec.get(key, []):
+                for x in ast.walk(ast.parse(gs.strip())):
+                    if isinstance(x, ast.Assign) and isinstance(x.targets[0], ast.Name):
+                        gnames.add(x.targets[0].id)
+        c = self.contract_for(fr)
+        for key, stmts in (c.ghost_after.items() if c is not None else []):
+            for gs in stmts:
+                for x in ast.walk(ast.parse(gs.strip())):
+                    if isinstance(x, ast.Assign) and isinstance(x.targets[0], ast.Name):
+                        gnames.add(x.targets[0].id)
+        for n in sorted(gnames):
+            if n in st.ghost:
+                st.ghost[n] = self.havoc_value(st.ghost[n], n, st)
         for p in sorted(paths):
             self.havoc_path(p, st, fr)
 
@@ -553,10 +582,12 @@ class StmtMixin:
             return z3.Bool(fresh_name(name))
         if isinstance(v, int):
             return z3.Int(fresh_name(name))
-        if isinstance(v, z3.ExprRef) and not z3.is_array(v):
+        if isinstance(v, z3.ExprRef):
             return z3.Const(fresh_name(name), v.sort())
         if hasattr(v, "havoc_copy"):
             return v.havoc_copy(self, st, name)
+        if isinstance(v, Opt):
+            return Opt(z3.Bool(fresh_name(name + ".isnone")), self.havoc_value(v.val, name, st))
         if isinstance(v, (Seq, Obj, list, dict)):
             self.havoc_inplace(v, name, st)
             return v
